@@ -54,7 +54,12 @@ def gen(rng, tier, index):
         plan["force"] = (rng.normal(size=3) * float(rng.uniform(0.2, 1.5)) * min(spec["Fi"]) / L**2).tolist()
         plan["moment"] = (rng.normal(size=3) * float(rng.uniform(0.0, 1.5)) * min(spec["Fi"]) / L).tolist()
         plan["R"] = rot.rand_quat(rng).tolist()
+        if rng.random() < 0.35:
+            # placements close to a half turn: the real part of the nodal quaternions is near zero and
+            # changes sign along the deformed rod
+            plan["R"] = rot.quat_axis_angle(rng.normal(size=3), np.pi + float(rng.uniform(-0.4, 0.4))).tolist()
         plan["r"] = rng.uniform(-2, 2, 3).tolist()
+        plan["placed"] = bool(rng.random() < 0.6)
         if kind == "frame":
             plan["tol"] = 1e-10
         if kind == "cantilever_fault":
@@ -227,7 +232,9 @@ def execute(plan, out, log):
             if kind in ("cantilever", "frame", "cantilever_fault"):
                 rs = plan["rod"]
                 sig = f"{rs['interp']}/{'mixed' if rs['mixed'] else 'db'}/{'constrained' if rs['constraints'] else 'free'}"
-                system, rod = build_cantilever(plan, moved=False)
+                # plain cantilevers are placed at identity or at the random rigid placement (large absolute
+                # rotations: nodal quaternions in both hemispheres)
+                system, rod = build_cantilever(plan, moved=(kind != "frame" and plan.get("placed", False)))
                 sol, opts = _solve_newton(system, plan, sim)
                 failed = sim.failed_instances()
                 if kind == "cantilever_fault":
@@ -322,7 +329,7 @@ def execute(plan, out, log):
         except (AssertionError, RuntimeError, ValueError, np.linalg.LinAlgError, FloatingPointError) as e:
             raise Discard(f"solver_raised:{kind}:{type(e).__name__}")
     out["nontrivial"] = out["steps"] >= 2 and moved_last > 1e-6
-    out["abstract"] = repr((kind, sig, plan["n_load_steps"], plan.get("fault_step"), plan["tol"]))
+    out["abstract"] = repr((kind, sig, plan["n_load_steps"], plan.get("fault_step"), plan["tol"], plan.get("placed")))
 
 
 def shrink(plan):
